@@ -115,9 +115,13 @@ fn alphabet_ext(ice: IceMode, ctrl: u8) -> Vec<TCell> {
     v.push(t(Cell::new(a, 17, 0))); // RGB foreground
     v.push(t(Cell::new(a, 7, 17))); // RGB background
     v.push(t(Cell::new(a, 7, 16))); // xterm background
+    v.push(t(Cell::new(32, 7, 17))); // blank on an RGB background
+    v.push(t(Cell::new(32, 7, 16))); // blank on an xterm background
     v.push(t(Cell::new(b'b' as u32, 7, 0).bold())); // bold flag on a dark colour
     if ice != IceMode::Blink {
         v.push(t(Cell::new(a, 1, 12)));
+        v.push(t(Cell::new(32, 7, 12))); // blank on a bright background
+        v.push(t(Cell::new(32, 7, 8))); // blank on bright black
     }
     if ice == IceMode::Unlimited {
         v.push(t(Cell::new(a, 7, 10).blink()));
@@ -468,6 +472,35 @@ fn build_c04(tier: &str) -> (Vec<Job>, Value) {
         }
     }
     counts.insert("extended_pair_rows".into(), json!(n3));
+    // (3b) runs of every extended cell: lengths 1..=8 in the middle of a row, at its start and up to its last / last but one column
+    // (the writer replaces runs by cursor-forward / repeat sequences depending on the colour state it tracks)
+    let mut n3b = 0;
+    for ice in 0..3u8 {
+        for ctrl in 0..3u8 {
+            for prep in 0..3u8 {
+                for bits in [DEFAULT_BITS, DEFAULT_BITS & !1, DEFAULT_BITS | 64, DEFAULT_BITS | 4, (DEFAULT_BITS | 4) & !2, DEFAULT_BITS | 8] {
+                    if !thorough && prep != 0 && bits != DEFAULT_BITS {
+                        continue;
+                    }
+                    let o = Opt { bits, prep, ctrl, ice };
+                    let ax = alphabet_ext(o.ice_mode(), ctrl);
+                    let mut rows = Vec::new();
+                    for a in &ax {
+                        for n in 1..=8usize {
+                            let run: Vec<TCell> = std::iter::repeat(*a).take(n).collect();
+                            rows.push([ax[1]].into_iter().chain(run.iter().copied()).chain([ax[1]]).collect::<Vec<_>>());
+                            rows.push(run.iter().copied().chain([ax[1]]).collect::<Vec<_>>());
+                            rows.push(std::iter::repeat(ax[1]).take(80 - n).chain(run.iter().copied()).collect::<Vec<_>>());
+                            rows.push(std::iter::repeat(ax[1]).take(79 - n).chain(run.iter().copied()).chain([ax[1]]).collect::<Vec<_>>());
+                        }
+                    }
+                    n3b += rows.len();
+                    chunk_docs("ans", 80, rows, 25, o, false, "runs of extended-alphabet cells", &mut docs);
+                }
+            }
+        }
+    }
+    counts.insert("extended_run_rows".into(), json!(n3b));
     // (4) every option vector on a core set of rows
     let mut n4 = 0;
     for o in Opt::all() {
@@ -500,6 +533,19 @@ fn build_c04(tier: &str) -> (Vec<Job>, Value) {
             }
         }
     }
+    // (6) widths beyond 80 columns carried by SAUCE: prefix . filler . suffix rows (blank runs that end beyond column 80)
+    let mut n6 = 0;
+    for w in [81usize, 100, 132] {
+        for ice in 0..3u8 {
+            let o = Opt { ice, ..Opt::default() };
+            let a8 = alphabet8(o.ice_mode());
+            let fillers = [a8[0], a8[1], a8[5]];
+            let rows = framed_rows(&a8, &fillers, w, 1);
+            n6 += rows.len();
+            chunk_docs("ans", w as i32, rows, 25, o, true, "prefix.filler.suffix rows at a SAUCE width beyond 80", &mut docs);
+        }
+    }
+    counts.insert("wide_sauce_framed_rows".into(), json!(n6));
     let jobs = docs.chunks(8).map(|c| Job::Docs(c.to_vec())).collect();
     (jobs, Value::Object(counts))
 }
